@@ -526,6 +526,19 @@ class Evaluator:
                 if len(outv) == 1:
                     (n, p), = outv.items()
                     return ("variant", a[1], n, p)
+                # which incoming edge built which variant (`let r = if c { A } else { B(x) }; match r { .. }`): a later test of the discriminant then
+                # carries the guards of those edges (guards(): _flag_phi_guards)
+                frm = []
+                okf = depth == 0
+                for x_, o_ in ((a, oa), (b, ob)):
+                    if tag(x_) == "variant" and o_ is not None:
+                        frm.append((x_[2], o_))
+                    elif tag(x_) == "vsum" and len(x_) > 3 and x_[3][0] == "from" and x_[3][1] == site:
+                        frm.extend(x_[3][2])
+                    else:
+                        okf = False
+                if okf and frm:
+                    return ("vsum", a[1], tuple(sorted(outv.items())), ("from", site, tuple(sorted(set(frm), key=repr))))
                 return ("vsum", a[1], tuple(sorted(outv.items())))
         alts = []
         origins = []
@@ -768,6 +781,8 @@ class Evaluator:
                             e_.setdefault("extra_guards", []).append(("variant-is", val[3][1], nm))
                 else:
                     split = self._dispatch_join(frame, val)
+                    if split is not None and not frame.body.dominates(split[1], bi) and not self._reached_only_through(frame, bi, split[1]):
+                        split = None        # some path returns here without passing the dispatch: the per-call reading would lose it
                     if split is None:
                         self._log(frame, bi, si, kind="ret0", value=val)
                     else:
@@ -1078,6 +1093,31 @@ class Evaluator:
         except ValueError:
             return None
 
+    def _reached_only_through(self, frame, bi, jb):
+        """every feasible path to block bi passes block jb although jb does not dominate bi in the CFG: bi lies behind a test of the discriminant of a value
+        joined from variant constructions (`let r = helper..; match r { Ok(x) => .. }` after inlining), and every construction that satisfies the test is
+        dominated by jb"""
+        try:
+            gs = self.guards(frame.res, bi, frame.body)
+        except Exception:
+            return False
+        for cond, rel in gs:
+            v = cond[1] if tag(cond) == "discr" else None
+            if not (tag(v) == "vsum" and len(v) > 3 and v[3][0] == "from"):
+                continue
+            ok_orig = []
+            for nm, o in v[3][2]:
+                d = self._variant_discr(v[1], nm)
+                if d is None:
+                    ok_orig = None
+                    break
+                sat = (rel[0] == "eq" and d == rel[1]) or (rel[0] == "ne" and d not in tuple(rel[1])) or (rel[0] == "in" and d in tuple(rel[1]))
+                if sat:
+                    ok_orig.append(o)
+            if ok_orig and all(o == jb or frame.body.dominates(jb, o) for o in ok_orig):
+                return True
+        return False
+
     def _resimplify(self, v):
         """payload(call, ..) terms made by substitution keep their form; nothing to fold today"""
         return v
@@ -1105,6 +1145,32 @@ class Evaluator:
             callee = "<indirect>"
             if tag(fv) == "fn":
                 callee = fv[1].split("::<")[0]
+            elif (tag(fv) == "phi" and len(fv) > 4 and fv[4] and all(o is not None for o in fv[4]) and len(fv[3]) >= 2 and all(tag(a) == "fn" for a in fv[3])
+                  and len(set(fv[3])) == len(fv[3])):
+                # a call through a function pointer that was chosen from a few functions (`let f = match kind { A => Self::a, B => Self::b }; f(self, n)`):
+                # one call per function, each under the guards of the edge that chose it; the result is joined over the same edges
+                try:
+                    jb = int(str(fv[1][-1]).split("@")[-1])
+                except ValueError:
+                    jb = None
+                if jb is not None:
+                    argtys = []
+                    for a in t["args"]:
+                        pl = place_of(a)
+                        argtys.append(body.locals[pl["l"]]["ty"] if pl is not None and not pl["proj"] else ("const" if "const" in a else None))
+                    vals = []
+                    for alt, origin in zip(fv[3], fv[4]):
+                        self._argtys = argtys
+                        cal = alt[1].split("::<")[0]
+                        entry = self._log(frame, bi, None, kind="call", callee=cal, decl=None, args=args, substs=[], self_ty=None, line=t.get("line"),
+                                          mac=t.get("mac"), site=site + ("via:%s" % cal.split("::")[-1],))
+                        entry.setdefault("extra_edges", []).append((origin, jb))
+                        v_ = self._model(frame, bi, t, cal, args, site + ("via:%s" % cal.split("::")[-1],), entry)
+                        entry["result"] = v_
+                        vals.append(v_)
+                    val = ("phi", fv[1], ("fnptr", bi), tuple(vals), tuple(fv[4]))
+                    self.assign(frame, t["dest"], val, bi, None, res)
+                    return
         argtys = []
         for a in t["args"]:
             pl = place_of(a)
@@ -1338,6 +1404,10 @@ class Evaluator:
                 if len(outv) == 1:
                     (n, p), = outv.items()
                     return ("variant", "std::ops::ControlFlow", n, p)
+                if len(x) > 3 and x[3][0] == "from":
+                    # the operand was joined from variant constructions: `?` keeps the correspondence (Ok / Some -> Continue, the other -> Break)
+                    frm = tuple(sorted(set(("Continue" if nm == good else "Break", o) for nm, o in x[3][2]), key=repr))
+                    return ("vsum", "std::ops::ControlFlow", tuple(sorted(outv.items())), ("from", x[3][1], frm))
                 return ("vsum", "std::ops::ControlFlow", tuple(sorted(outv.items())))
             # opaque operand: split it by the kind of the Try type so that `?` on it still yields a proper None / Err value
             if "option::Option" in c:
@@ -1739,6 +1809,17 @@ class Evaluator:
     def _flag_phi_guards(self, res, body, cond, rel, depth):
         """A branch on a flag that was joined from constants in this frame (`matches!(..)`, `let ok = a && b;`) carries the guards
         common to the incoming edges whose constant satisfies the branch."""
+        if tag(cond) == "discr" and tag(cond[1]) == "vsum" and len(cond[1]) > 3 and cond[1][3][0] == "from":
+            # the discriminant of a value joined from variant constructions: as a flag whose constants are the variants' discriminants
+            v = cond[1]
+            alts, origs = [], []
+            for nm, o in v[3][2]:
+                d = self._variant_discr(v[1], nm)
+                if d is None:
+                    return []
+                alts.append(const(d))
+                origs.append(o)
+            cond = ("phi", v[3][1], "discr", tuple(alts), tuple(origs))
         if not (tag(cond) == "phi" and len(cond) > 4 and cond[4] and all(o is not None for o in cond[4])):
             return []
         if not all(isinstance(a, Lin) and a.is_const() for a in cond[3]):
@@ -1765,6 +1846,17 @@ class Evaluator:
             return []
         sets = [set(self.guards_edge(res, o, jb, body, depth + 1)) for o in match]
         return list(set.intersection(*sets))
+
+    def _variant_discr(self, adt, name):
+        std = {"None": 0, "Some": 1, "Ok": 0, "Err": 1, "Continue": 0, "Break": 1, "Left": 0, "Right": 1}
+        for a in self.facts.adts.values():
+            if a["path"] == adt or a["path"].endswith("::" + adt.split("::")[-1]) and a["path"].split("::")[-1] == adt.split("::")[-1]:
+                for v in a["variants"]:
+                    if v["name"] == name and v["discr"] is not None:
+                        return int(v["discr"])
+        if adt.split("::")[-1].split("<")[0] in ("Option", "Result", "ControlFlow", "Either"):
+            return std.get(name)
+        return None
 
     def guards_edge(self, res, p, j, body=None, _depth=0):
         """guards that hold when control flows along the CFG edge p -> j"""
